@@ -245,3 +245,13 @@ Example C06_nonvacuous :
   /\ head_pinned Nat.eqb (fun d : list nat => d) (@length nat) (with_rgs h []) 3 (mk_ropts None IdxDefault)
   = Fail UnboundLocalError.
 Proof. vm_compute. repeat split. Qed.
+
+(* Row-group level filters (wave 3): `to_pandas / iter_row_groups / count (filters=F)` read the row groups that
+   filter_row_groups keeps; in the programs of C06_programs this is the operation `HKeep m` (m = the decision for each row
+   group of the handle, in order - WHAT the decision must be is C05's subject).  C06_programs therefore also states: a
+   filtered partial read = the parts of the full read that belong to the kept row groups, for every composition with
+   slices, picks, pickling and copies.  What the decision vector selects: *)
+Theorem C06_filter_keeps : forall (A : Type) (m : list bool) (l : list A),
+  keep_mask m l = map fst (filter snd (combine l m)).
+Proof. exact keep_mask_meaning. Qed.
+Print Assumptions C06_filter_keeps.
